@@ -582,3 +582,75 @@ def c13(tier, seed, work):
 
 
 CHECKS.update({"C13": c13})
+
+
+def c19(tier, seed, work):
+    mcs = [F.model_check("Concurrent", "MC_Concurrent.cfg", work, workers=4)]
+    if not F.expect_violation("Concurrent", "Mutant_Concurrent_Shared.cfg", work, "C19_SameAsAlone"):
+        raise vlib.Inconclusive("model mutant Mutant_Concurrent_Shared.cfg did not violate C19_SameAsAlone")
+    vlib.build_harness(race=True)
+    t = "quick"
+    specs = [("hs", dict(family="honest", tier=t, seed=seed)),
+             ("walk", dict(module="MCGenSdr", cfg_tpl="Gen_Cipher.cfg.tpl", family="plain", tier=t, seed=seed)),
+             ("walk", dict(module="MCGenSdr", cfg_tpl="Gen_Cipher.cfg.tpl", family="events", tier=t, seed=seed)),
+             ("walk", dict(module="MCGenDcmi", cfg_tpl="Gen_Cipher.cfg.tpl", family="paging", tier=t, seed=seed)),
+             ("walk", dict(module="MCGenCipher", cfg_tpl="Gen_Cipher.cfg.tpl", family="selection", tier=t, seed=seed)),
+             ("walk", dict(module="MCGenSensor", cfg_tpl="Gen_Cipher.cfg.tpl", family="misc", tier=t, seed=seed))]
+    ns = [8] if tier == "quick" else [2, 4, 8, 16]
+    if tier == "quick":
+        specs = [sp for i, sp in enumerate(specs) if i in (0, 1, 3, 4)]
+    viols, fams, races, diffs, compared = [], [], 0, 0, 0
+
+    def run(kind, kw, name, workers):
+        if kind == "hs":
+            return F.handshake_family(work, name=name, workers=workers, race=True, **kw)
+        return F.walk_family(work, name=name, workers=workers, race=True, **kw)
+
+    jobs = [(idx, kind, kw, n) for idx, (kind, kw) in enumerate(specs) for n in [1] + ns]
+    with cf.ThreadPoolExecutor(max_workers=4) as ex:
+        done = list(ex.map(lambda j: (j, run(j[1], j[2], ("c19-solo-%d" % j[0]) if j[3] == 1 else ("c19-n%d-%d" % (j[3], j[0])), j[3])), jobs))
+    results = {(j[0], j[3]): r for j, r in done}
+    for idx, (kind, kw) in enumerate(specs):
+        solo = results[(idx, 1)]
+        base = F.normalised(solo["traces"])
+        fams.append(solo)
+        for n in ns:
+            conc = results[(idx, n)]
+            fams.append(conc)
+            races += conc["replay_info"].get("race_reports", 0)
+            if conc["replay_info"].get("race_reports", 0):
+                viols.append({"prop": "C19", "pred": "no-data-race", "ctx": {"goroutines": n, "family": conc["name"]},
+                              "where": {"family": conc["name"], "race_report": conc["replay_info"].get("stderr", "")[-3000:]}})
+            got = F.normalised(conc["traces"])
+            for key, evs in base.items():
+                k2 = (key[0].replace("c19-solo", "c19-n%d" % n), key[1])
+                compared += 1
+                if got.get(k2) != evs:
+                    diffs += 1
+                    if diffs <= 5:
+                        viols.append({"prop": "C19", "pred": "results-identical-to-the-same-workload-run-alone",
+                                      "ctx": {"goroutines": n, "family": conc["name"].split("-")[-1]},
+                                      "where": {"family": conc["name"], "script_id": key[1], "solo": evs[-3:], "concurrent": (got.get(k2) or [])[-3:]}})
+            for v in flatten(conc):
+                viols.append(v)
+    require_accepted(fams)
+    for v in viols:
+        v.pop("scripts_file", None)
+    nscripts = sum(f["scripts"] for f in fams)
+    cov = {"states": sum(m["distinct"] for m in mcs), "transitions": sum(m["generated"] for m in mcs), "model_checking": mcs,
+           "model_mutants_killed": [{"cfg": "Mutant_Concurrent_Shared.cfg", "violates": "C19_SameAsAlone"}],
+           "traces_validated_against_impl": nscripts, "events_validated": sum(f["events"] for f in fams),
+           "evaluations": nscripts, "distinct_nontrivial": compared, "race_reports": races, "workloads_compared_with_solo": compared,
+           "rule": "Concurrent.tla states non-interference (each connection's result equals its solo result under every interleaving; "
+                   "package tables read-only) and is checked with a shared-state mutant. The harness is built with -race; workloads "
+                   "(handshakes + commands for all suites and credential shapes, SDR walks with and without modifications, DCMI paging, "
+                   "cipher-suite discovery with default and explicit preferences, sensor readers) run alone and then on N goroutines, "
+                   "one scripted BMC each; every concurrent trace is validated by TLC with the single-connection trace specification and "
+                   "compared event-by-event (random IVs / console randoms / timings removed) with the solo run of the same script; any "
+                   "race-detector report is a violation. Schedules are those the Go runtime produces, not enumerated.",
+           "families": fam_cov(fams[:12]), "samples": [sample_script(fams[0])]}
+    return {"level": "exploration", "coverage": cov, "viols": viols, "assumptions": COMMON_ASSUME + [
+        "data-race detection is done by the Go race detector during the conformance run, not by TLC"]}
+
+
+CHECKS.update({"C19": c19})
